@@ -2074,7 +2074,7 @@ class ImportanceNestedSampler(BaseNestedSampler):
         its = np.arange(self.iteration)
 
         for a in ax:
-            a.vlines(self.history["checkpoint_iterations"], 0, 1, color="C2")
+            a.vlines(self.checkpoint_iterations, 0, 1, color="C2")
 
         # Counter for each plot
         m = 0
